@@ -9,3 +9,5 @@ open PdModel.Tso PdModel.Spec
 #print axioms C01.check_iff
 #print axioms C01.holds_of_linearisation
 #print axioms C01.compose_strict_mono
+#print axioms client_batch_exact
+#print axioms tsLessEqual_iff
